@@ -39,6 +39,9 @@ MIN_EVALS = {"quick": 6, "thorough": 40}
 _TMP = None
 
 
+from ..gen.scribble import scribble  # noqa: E402
+
+
 def classes(tier):
     return ["mixed", "circuits", "operators", "measurements"]
 
@@ -428,6 +431,25 @@ FOCUS = {
 }
 
 
+# operations whose result is documented to be an alias of state kept by the receiver (PauliTerm.circuit: "for
+# efficiency constructed circuit is cached after the first invocation"; PauliSum.circuits collects those): a
+# caller that edits such a result edits the receiver's cache by design, which the property does not rule out
+ALIAS_BY_DESIGN = {"sum.circuits", "term.circuit"}
+
+
+def _pool_ids(pool):
+    """ids of the pool objects and of their public containers (never to be touched by scribble)"""
+    from ..gen.scribble import _lib_containers
+
+    ids = set()
+    for objs in pool.values():
+        for o in objs:
+            ids.add(id(o))
+            for c in _lib_containers(o):
+                ids.add(id(c))
+    return ids
+
+
 def run_case(ctx):
     global _TMP
     rng, nprng = ctx.rng, ctx.nprng
@@ -442,6 +464,8 @@ def run_case(ctx):
     kinds_done = set()
     aliased = 0
     raised = 0
+    scribbled = 0
+    scribble_on = ctx.index % 2 == 1  # every other history: results of the first call are modified in place
     mon = ctx.mon
     ctx.describe(f"{ctx.cls} history seed-index={ctx.index} steps={steps}", True)
     for step in range(steps):
@@ -461,18 +485,27 @@ def run_case(ctx):
             aliased += 1
         st = rng.getstate()
         results = []
+        s1 = None
+        scribbled_now = 0
         for rep in range(2):
             rng.setstate(st)
             try:
                 results.append(("ok", fn(rng, *operands)))
             except Exception as e:  # an operation may legitimately refuse its operands
                 results.append(("exc", type(e).__name__))
+            if rep == 0 and results[0][0] == "ok":
+                s1 = snap(results[0][1])
+                if scribble_on and name not in ALIAS_BY_DESIGN:
+                    # the caller owns what the operation returned: modify it in place (containers only, nothing
+                    # that IS a pool object or one of its public containers) before asking again
+                    scribbled_now = scribble(results[0][1], seen=_pool_ids(pool))
+                    scribbled += scribbled_now
         kinds_done.add(name)
         if results[0][0] == "exc":
             raised += 1
         # same operation twice -> equal results
         if results[0][0] == "ok" and results[1][0] == "ok":
-            s1, s2 = snap(results[0][1]), snap(results[1][1])
+            s2 = snap(results[1][1])
             ctx.check("same-result-twice", s1 == s2,
                       lambda: f"{name} on the same arguments gave different results: " + "; ".join(diff(s1, s2)))
         elif results[0][0] != results[1][0] or results[0][1] != results[1][1]:
@@ -489,8 +522,8 @@ def run_case(ctx):
         else:
             mon.checks["pool-unchanged"] += 1
         # feed the result back
-        if rkind and results[0][0] == "ok" and rng.random() < 0.35:
-            r = results[0][1]
+        if rkind and results[0][0] == "ok" and results[1][0] == "ok" and rng.random() < 0.35:
+            r = results[1][1] if scribbled_now else results[0][1]
             ok = True
             if rkind in ("circ", "scirc"):
                 ok = getattr(r, "n_qubits", 9) <= 4 and len(r.operations) <= 14
@@ -502,6 +535,7 @@ def run_case(ctx):
                 before = pool_snapshot(pool)
     mon.note("steps", steps)
     mon.note("aliased-calls", aliased)
+    mon.note("result-containers-modified-between-the-two-calls", scribbled)
     mon.note("refused-calls", raised)
     for k in kinds_done:
         mon.note("op:" + k)
